@@ -8,6 +8,7 @@ import (
 	"math/big"
 	"math/rand"
 	"sort"
+	"strings"
 	"unicode/utf8"
 
 	"github.com/formancehq/ledger/internal/verif/gen"
@@ -60,7 +61,20 @@ func nastyString(r *rand.Rand) string {
 var canonicalProfile bool
 
 // anyString: free text for payload fields (no constraint applies to them).
+// noNul: when set, anyString never contains U+0000 (PostgreSQL's jsonb rejects it, so a
+// payload holding it cannot be stored in logs.data at all).
+var noNul bool
+
 func anyString(r *rand.Rand) string {
+	if noNul {
+		defer func() {}()
+		s := anyStringInner(r)
+		return strings.ReplaceAll(s, "\x00", "")
+	}
+	return anyStringInner(r)
+}
+
+func anyStringInner(r *rand.Rand) string {
 	if canonicalProfile {
 		for {
 			s := anyStringRaw(r)
